@@ -4,12 +4,14 @@ package main
 // sync/atomic, uninterpreted hashing, small std helpers that use unsafe/asm.
 
 import (
+	"crypto/sha256"
 	"fmt"
 	"go/types"
 	"math/big"
 	"sort"
 	"strings"
 
+	"golang.org/x/crypto/sha3"
 	"golang.org/x/tools/go/ssa"
 )
 
@@ -179,7 +181,7 @@ func (in *Interp) bytesToNat(bs []Value) *Term {
 	for _, b := range bs[1:] {
 		acc = in.tt.Concat(acc, b.(*Term))
 	}
-	return in.tt.Bv2Nat(acc)
+	return in.dropMod(in.tt.Bv2Nat(acc))
 }
 
 // natToBytes: n big-endian bytes of (x mod 2^(8n))
@@ -225,7 +227,6 @@ func (in *Interp) hashUF(tag string, data []Value, outBytes int) Array {
 			allConst = false
 		}
 	}
-	_ = allConst
 	var res *Term
 	name := fmt.Sprintf("%s_%d", tag, n)
 	{
@@ -247,7 +248,23 @@ func (in *Interp) hashUF(tag string, data []Value, outBytes int) Array {
 			}
 		}
 		if res == nil {
-			res = in.tt.Var(fmt.Sprintf("%s#%d", name, len(in.hashApps[name])), BV(8*outBytes))
+			if allConst && outBytes == 32 && (tag == "sha3" || tag == "sha256") {
+				// a concrete input has its real digest (one more value of the collision-free function: the axioms
+				// below relate it to the symbolic applications exactly like a digest variable)
+				raw := make([]byte, n)
+				for i, d := range data {
+					raw[i] = byte(d.(*Term).val.Uint64())
+				}
+				var sum [32]byte
+				if tag == "sha3" {
+					sum = sha3.Sum256(raw)
+				} else {
+					sum = sha256.Sum256(raw)
+				}
+				res = in.tt.BVConst(new(big.Int).SetBytes(sum[:]), 256)
+			} else {
+				res = in.tt.Var(fmt.Sprintf("%s#%d", name, len(in.hashApps[name])), BV(8*outBytes))
+			}
 			if in.path != nil {
 				for _, prev := range in.hashApps[name] {
 					in.addPC(in.tt.Eq(in.tt.Eq(prev.arg, acc), in.tt.Eq(prev.res, res)))
